@@ -25,7 +25,9 @@ claimed = {
  "C14": ("DESIGN.md §6 C14", "Family 'gendet': a configuration with several entries in every option; the identical request is run repeatedly and with seeded permutations of YAML key / list-entry / +-list order (quick 18, thorough 70 per configuration); clause C14.same_sha on the raw response bytes. The specification states what may vary between runs (log output of Config.dump) and what may not (the response)."),
  "C15": ("DESIGN.md §6 C15", "Family 'gensort': reversal, rotations, swaps of the fields of a message with two oneof groups, an embed and a list, and all orders of the 4 messages (thorough: more); sort on: alternative renderings of one run must give a byte-identical file (C15.sorted_bytes); sort off: schemas equal (C15.unsorted_schema) and the same vectors replayed through base and permuted variants compared line by line, diagnostics as sets (C15.unsorted_behaviour)."),
  "C16": ("DESIGN.md §6 C16", "Family 'genconfig': one configuration delivered through every single-option channel assignment (CLI / both with contradicting YAML), all-CLI, all-both and mixed assignments (same request paths, generated file hash compared: C16.channel_equiv, C16.cli_wins); failure cases no types / unreadable / malformed YAML (C16.*_fails, *_nofile)."),
+ "C17": ("DESIGN.md §6 C17", "Families 'custom', 'custombad', 'custombadto': custom-type fields by proto option and by configuration, singular and repeated, with and without a suffixes entry, with flags / validators / comments; the harness supplies per-suffix generic hooks that log every call with its arguments and result; Trace.tla judges C17.schema_call (attribute passed = what the field would otherwise get, result = schema entry), C17.from_call, C17.to_call, C17.to_stored, C17.missing_diag; a wrong suffix shows as generated code that does not compile (C17.generated_code_compiles)."),
  "C18": ("DESIGN.md §6 C18", "Family 'genwhole': a selected type with one unmappable field (time / duration without configured type, non-string map key) at top level, nested, under list / map / embed / oneof / depth 3, next to a healthy type; runs without the type, with it, and with the field excluded; clauses C18.none_for_poisoned, others_intact (function text hashes equal across the group), logged, exclude_restores (schema + CopyTo clauses on the restored type)."),
+ "C19": ("DESIGN.md §6 C19", "Family 'boundary': every entry of the boundary table of the Go type (spec/Boundary.tla: 32/64-bit extremes incl. uint64 above MaxInt64, float32 denormal / max / 1+ulp, -0, invalid UTF-8 and NUL bytes, enum extremes, ns times with non-UTC zones, year 9999, negative / extreme durations) in every scalar position (singular, list element, map value, oneof branch, cast type) of all 15 proto scalar types, enum, time and duration, plus seeded random values of the same Go types (40 / 1500 behaviours per shape); round trip through the real code, clause C19.exact per field."),
  "C20": ("DESIGN.md §6 C20", "Same traces as C03; clauses C20.* state null <=> absent per attribute outside list/map elements at every depth, evaluated by TLC on the real post-state."),
 }
 technique = "explicit TLA+ spec (Session/CopyTo/CopyFrom/Contract), TLC exhaustive enumeration as test generator, replay in the real generated code, TLC trace validation of the recorded states"
